@@ -3,3 +3,8 @@ import LibfiveTheorems.C01
 #print axioms Libfive.C01.batch_slotwise
 #print axioms Libfive.C01.batch_independent_of_other_slots
 #print axioms Libfive.C01.constant_fold_sound
+#print axioms Libfive.C01.deck_tape_correct
+#print axioms Libfive.C01.deck_wf
+#print axioms Libfive.C01.deck_eval_correct
+#print axioms Libfive.C01.walk_spec_satisfiable
+#print axioms Libfive.C01.walk_spec_test_sound
